@@ -428,3 +428,9 @@ def request_mark_obligations(rr, repo, marks=('eph', 'new')):
 @rule('C04.R7', "a synchronized source is never asked as if it were ephemeral: the per-source 'eph' mark of request() does not leak from one source to the next")
 def r7(rr, repo):
     request_mark_obligations(rr, repo, marks=('eph',))
+
+
+@rule('C04.R8', "under load balancing the branch that gets the frame is chosen only among outputs all of whose consumers asked (shares C07.R1): an output with a stalled consumer is never the one published on")
+def r8(rr, repo):
+    from .c07 import r1 as c07r1
+    c07r1(rr, repo)
